@@ -52,6 +52,10 @@ func (b *srvBox) restart(gen int) {
 	}
 	b.gen++
 	b.restarts++
+	t0 := time.Now()
+	defer func() {
+		fmt.Printf("C18: ts-server restarted after an unanswered query (restart %d, %.1fs, ok=%v)\n", b.restarts, time.Since(t0).Seconds(), !b.dead)
+	}()
 	b.s.Kill()
 	if b.restarts > 12 {
 		b.dead = true
